@@ -163,11 +163,26 @@ const stepWait = 1200 * time.Millisecond
 
 func runC16sched(s *c16sched) (arr []string, final string) {
 	ct := newCtrl()
+	// "select 1": the parser is the handler whose start is observed (simple Query, Parse);
+	// "ext": prepared while the controller lets everything pass, its statement function is the
+	// handler observed when a portal bound to it is executed
 	parse := func(ctx context.Context, query string) (wire.PreparedStatements, error) {
+		if query == "ext" {
+			return wire.Prepared(wire.NewStatement(func(ctx context.Context, w wire.DataWriter, p []wire.Parameter) error {
+				ct.hook(nil, "handler")
+				return w.Complete("OK")
+			})), nil
+		}
 		ct.hook(nil, "handler")
 		return wire.Prepared(wire.NewStatement(func(ctx context.Context, w wire.DataWriter, p []wire.Parameter) error {
 			return w.Complete("OK")
 		})), nil
+	}
+	sid := 0
+	for _, ch := range s.id {
+		if ch >= '0' && ch <= '9' {
+			sid = sid*10 + int(ch-'0')
+		}
 	}
 	srv, err := wire.NewServer(parse, wire.Logger(quiet), wire.MessageBufferSize(256))
 	if err != nil {
@@ -201,6 +216,36 @@ func runC16sched(s *c16sched) (arr []string, final string) {
 		}()
 		conn.push(stdStartup)
 		conn.waitIdle(stepWait)
+	}
+	// every other connection has an extended-query batch open (Parse, Bind, no Sync yet) when
+	// the schedule starts: its scheduled messages execute the bound portal
+	warmed := make([]bool, len(s.budgets))
+	nsent := make([]int, len(s.budgets))
+	for i := range s.budgets {
+		if (sid+i)%2 == 0 {
+			continue
+		}
+		warmed[i] = true
+		ct.mu.Lock()
+		ct.free = true
+		ct.mu.Unlock()
+		conns[i].push(cat(mParse([]byte("s"), []byte("ext"), 0), mBind([]byte("p"), []byte("s"), nil, nil, nil)))
+		conns[i].waitIdle(stepWait)
+		ct.mu.Lock()
+		ct.free = false
+		ct.mu.Unlock()
+	}
+	nextMsg := func(wi int) []byte {
+		k := nsent[wi]
+		nsent[wi]++
+		switch {
+		case warmed[wi]:
+			return mExecute([]byte("p"), 0)
+		case (sid+wi+k)%3 == 1:
+			return mParse([]byte("t"), []byte("select 1"), 0)
+		default:
+			return mQuery([]byte("select 1"))
+		}
 	}
 	// the Close callers, parked at close.enter
 	closerDone := make([]chan struct{}, s.nc)
@@ -241,7 +286,7 @@ func runC16sched(s *c16sched) (arr []string, final string) {
 			ct.mu.Unlock()
 			if isWorker && cur == "" {
 				// idle in Read: its next step is the arrival of a client message
-				conns[wi].push(mQuery([]byte("select 1")))
+				conns[wi].push(nextMsg(wi))
 			} else {
 				ct.release(a)
 			}
